@@ -57,7 +57,7 @@ def bad(key, what, expected=None, observed=None, nontrivial=True, outcome=None):
 
 
 class Kind(object):
-  def __init__(self, gen, run, rule="", expand=None, timeout=30.0, chunk=200,
+  def __init__(self, gen, run, rule="", expand=None, timeout=60.0, chunk=200,
                doc=""):
     self.gen, self.run, self.rule, self.expand = gen, run, rule, expand
     self.timeout, self.chunk, self.doc = timeout, chunk, doc
